@@ -51,10 +51,12 @@ def entry_functions(units):
                 yield u, f, m
 
 
-def rule_B(ck, an, units):
+def rule_B(ck, an, units, only=None, floor=50):
     ck.rule('B.work-arrays', 'every data member written inside operator()/apply*/solve/cycle is killed (clear, copy-into, zero-coefficient overwrite, fill, '
-                             'element assignment) before its first read on every path of the call', 50)
+                             'element assignment) before its first read on every path of the call', floor)
     for u, f, m in entry_functions(units):
+        if only is not None and not only(f):
+            continue
         acc = [a for a in an.accesses(f) if a.root[0] == 'this']
         written = {a.root for a in acc if a.kind in ('kill', 'elem', 'rw', 'one')}
         if not written:
